@@ -1241,3 +1241,53 @@ E('C06', 'early-return-style', ADD, "        if self.persistent and self.sync_st
 EM('C06', 'flag-renamed', [(SIM, "        start_ok = False\n", "        init_ok = False\n"),
                             (SIM, "            start_ok = True\n", "            init_ok = True\n"),
                             (SIM, "            if start_ok and self.persistent_dict is not None:", "            if init_ok and self.persistent_dict is not None:")])
+
+# ----------------------------------------------------------------------------- C07
+V('C07', 'f5-reverted', CRON, "for blk in set().union(*self._alarms.values()):  # all blocks", "for blk in set.union(*self._alarms.values()):  # all blocks", 'R07.1')
+V('C07', 'reset-keeps-index', CRON, """                    blk.recalc(nowdt)
+                index = None
+                continue
+            if reload:""", """                    blk.recalc(nowdt)
+                continue
+            if reload:""", 'R07.2')
+V('C07', 'reset-no-recalc', CRON, """                for blk in set().union(*self._alarms.values()):  # all blocks
+                    assert hasattr(blk, 'recalc')
+                    blk.recalc(nowdt)
+                index = None""", """                index = None""", 'R07.2')
+V('C07', 'no-hourly', CRON, "timetable = sorted(_SET24.union(self._alarms))", "timetable = sorted(self._alarms)", 'R07.1')
+V('C07', 'raise-on-drift', CRON, "                self.log_warning(\"Resetting due to a time tracking problem.\")\n", "                self.log_warning(\"Resetting due to a time tracking problem.\")\n                if abs(diff) > 10 * SEC_PER_HOUR:\n                    raise RuntimeError('system clock is unusable')\n", 'R07.2')
+V('C07', 'no-reload', TD, """        self._cron.add_block(dt.time(0, 0, 0), self)
+        self._cron.reload()
+        self.recalc(self._cron.dtnow())""", """        self._cron.add_block(dt.time(0, 0, 0), self)
+        self.recalc(self._cron.dtnow())""", 'R07.3')
+V('C07', 'add-before-store', TD, """        self._times, self._dates, self._weekdays = self._parse3(times, dates, weekdays)
+        if self._times is not None:
+            for time_of_day in self._times.range_endpoints():
+                self._cron.add_block(time_of_day, self)
+""", """        if self._times is not None:
+            for time_of_day in self._times.range_endpoints():
+                self._cron.add_block(time_of_day, self)
+        self._times, self._dates, self._weekdays = self._parse3(times, dates, weekdays)
+""", 'R07.3')
+V('C07', 'no-midnight', TD, "        self._cron.add_block(dt.time(0, 0, 0), self)\n", "        if self._dates is not None:\n            self._cron.add_block(dt.time(0, 0, 0), self)\n", 'R07.3')
+V('C07', 'span-strict-future', TD, "            if datetime.date() >= now_date:", "            if datetime.date() > now_date:", 'R07.3')
+V('C07', 'recalc-before-reload', TD, """        self._cron.reload()
+        self.recalc(now)""", """        self.recalc(now)
+        self._cron.reload()""", 'R07.3')
+V('C07', 'weekday-monday0', TD, "            and (self._weekdays is None or now.isoweekday() in self._weekdays))", "            and (self._weekdays is None or now.weekday() in self._weekdays))", 'R07.5')
+V('C07', 'dates-or', TD, """            and (self._dates is None
+                 or ti.convert_date_seq([now.month, now.day]) in self._dates)""", """            or (self._dates is not None
+                and ti.convert_date_seq([now.month, now.day]) in self._dates)""", 'R07.5')
+V('C07', 'unconfigured-true', TD, "            self._is_configured()\n            and (self._times is None", "            (self._times is None", 'R07.5')
+V('C07', 'sunday-zero', TD, "pweekdays = frozenset(7 if x == 0 else x for x in weekdays)", "pweekdays = frozenset(0 if x == 7 else x for x in weekdays)", 'R07.5')
+V('C07', 'wrong-clock', TD, "        self.recalc(self._cron.dtnow())", "        self.recalc(dt.datetime.now())", 'R07.4')
+V('C07', 'cron-mode-swapped', TD, "        cronblock = cron.Cron(name, utc=utc, _reserved=True)", "        cronblock = cron.Cron(name, utc=False, _reserved=True)", 'R07.4')
+V('C07', 'queue-sleep-plain', CRON, """                    try:
+                        await asyncio.wait_for(self._queue.get(), sleeptime - overhead)
+                    except asyncio.TimeoutError:
+                        pass
+                    else:
+                        reload.set()
+                        break""", """                    await asyncio.sleep(sleeptime - overhead)""", 'R07.3')
+E('C07', 'union-method', CRON, "for blk in set().union(*self._alarms.values()):  # all blocks", "for blk in {b for blks in self._alarms.values() for b in blks}:  # all blocks")
+E('C07', 'recalc-local', TD, "        self.recalc(self._cron.dtnow())", "        now = self._cron.dtnow()\n        self.recalc(now)")
